@@ -56,7 +56,7 @@ def last_runs(d):
     if os.path.exists(rj):
         for batch in json.load(open(rj)):
             for r in batch.get("runs", []):
-                out[(r["prop"], r["seed"])] = r
+                out[(r["prop"], int(r["seed"]))] = r
     return out
 
 
